@@ -269,7 +269,7 @@ def frames_equal(df, plain, cols):
 def run_shard(ctx):
     rng = ctx.rng('c18')
     Canon = canon_class()
-    maps = alias_maps(rng, ctx.pick(90, 600))
+    maps = alias_maps(rng, ctx.pick(200, 1500))
     idx = 0
     for aliases in maps:
         names = sorted(set(aliases) | set(VARS))
